@@ -20,7 +20,7 @@ theorem linebuffer_hides_byte (cfg : Config) (b : Nat)
     ((reach cfg inp script ops).binOff = none →
       b ∉ inp.take ((reach cfg inp script ops).abs + (reach cfg inp script ops).buffer.length)) := by
   unfold reach
-  generalize hs : (run (LB.init cfg) ⟨inp, script⟩ ops).1 = s
+  generalize hs : (run (LB.init cfg) ⟨inp, script, 0⟩ ops).1 = s
   obtain ⟨a, m, rest, h⟩ := run_inv cfg inp ops _ _ _ _ _ (Inv.init cfg inp script)
   rw [hs] at h
   refine ⟨?_, ?_, ?_⟩
@@ -104,39 +104,6 @@ theorem detection_table :
   · intro nd ex; cases nd <;> cases ex <;> rfl
   · intro m ex; cases m <;> cases ex <;> rfl
   · intro ex; cases ex <;> rfl
-
-/-- item written for an event when nothing is suppressed -/
-def toItem : Ev → Option Item
-  | .matched _ ln bs => some (.matchLine ln bs)
-  | .context _ ln bs => some (.contextLine ln bs)
-  | .ctxBreak => some .sep
-  | .binaryData _ => none
-
-theorem feed_plain (det : Det) (hd : det ≠ .convert) (evs : List Ev) : ∀ st : St,
-    (feed det st evs).out = st.out ++ evs.filterMap toItem := by
-  have hcv : (det == Det.convert) = false := by cases det <;> simp_all
-  induction evs with
-  | nil => intro st; simp [feed]
-  | cons ev evs ih =>
-    intro st
-    cases ev with
-    | matched off ln bs =>
-      simp only [feed, step, hcv, Bool.false_and, Bool.false_eq_true, if_false]
-      rw [ih]
-      simp [toItem]
-    | context off ln bs =>
-      simp only [feed, step, hcv, Bool.false_and, Bool.false_eq_true, if_false]
-      rw [ih]
-      simp [toItem]
-    | ctxBreak =>
-      simp only [feed, step]
-      rw [ih]
-      simp [toItem]
-    | binaryData off =>
-      simp only [feed, step]
-      rw [ih]
-      have : toItem (.binaryData off) = none := rfl
-      simp [this]
 
 /-- **`--text` equals detection disabled**: `--text` selects `none` for every file (see
 `detection_table`), and with `none` the printer writes every delivered line and separator and
@@ -227,7 +194,9 @@ theorem explicit_notice_only (pre post : List Ev) (off : Nat)
       intro st hb
       cases ev with
       | matched o ln bs => exact ⟨0, by simp [feed, step, hb], by simp [feed, step, hb]⟩
-      | context o ln bs => exact ⟨0, by simp [feed, step, hb], by simp [feed, step, hb]⟩
+      | context o ln bs =>
+        obtain ⟨k, h1, h2⟩ := ih st hb
+        exact ⟨k, by simpa [feed, step, hb] using h1, by simpa [feed, step, hb] using h2⟩
       | ctxBreak =>
         obtain ⟨k, h1, h2⟩ := ih { st with out := st.out ++ [.sep] } hb
         refine ⟨k + 1, ?_, by simpa [feed, step] using h2⟩
@@ -255,27 +224,6 @@ theorem explicit_notice_only (pre post : List Ev) (off : Nat)
 
 /-! ### the second sentence of the property, at full strength — false on the current tree -/
 
-def Ev.isMatched : Ev → Bool
-  | .matched _ _ _ => true
-  | _ => false
-
-def Ev.isContext : Ev → Bool
-  | .context _ _ _ => true
-  | _ => false
-
-def Item.isMatchLine : Item → Bool
-  | .matchLine _ _ => true
-  | _ => false
-
-def Item.isLine : Item → Bool
-  | .matchLine _ _ => true
-  | .contextLine _ _ => true
-  | _ => false
-
-def Item.isNotice : Item → Bool
-  | .binaryMatches _ => true
-  | _ => false
-
 /-- Explicit file / `--binary`: "no notice and no match only if no line of it matches" —
 for the stream `evs` the searcher would deliver to a sink that never stops. -/
 def NoticeIfMatch (evs : List Ev) : Prop :=
@@ -287,82 +235,25 @@ def WarnIfPrinted (pre : List Ev) (off : Nat) : Prop :=
   (∃ it ∈ stdRun .quit (pre ++ [.binaryData off]), it.isLine = true) →
     (stdRun .quit (pre ++ [.binaryData off])).getLast? = some (.stoppedWarning off)
 
+/-- **Explicit file or `--binary`: a notice or a match whenever a line matches** (full strength
+since fix 8b6e9fb: a context line no longer ends the search before a match was seen). -/
+theorem notice_if_match (evs : List Ev) : NoticeIfMatch evs := by
+  unfold NoticeIfMatch stdRun
+  intro hm
+  exact convert_notice_aux evs {} (Or.inr hm) (by intro h; simp at h)
+
 /-- The second sentence of C14 for every event stream. -/
 def C14_full : Prop := (∀ evs, NoticeIfMatch evs) ∧ (∀ pre off, WarnIfPrinted pre off)
 
-/-- It fails twice on the unchanged tree: a context line delivered before the first match (`-B`,
-`-C`, `--passthru`) makes the printer stop in `Convert` mode with a match count of 0, so neither a
-match nor the notice is written (`rg -B2 x f` prints nothing, exit 1, where `rg x f` prints
-"binary file matches"); and in `Quit` mode the warning depends on the match count, not on what
-was printed (`--passthru`: lines printed, then silence). -/
+/-- It still fails on the current tree: in `Quit` mode the warning depends on the match count, not
+on what was printed (`--passthru`, or before-context whose matching line holds the NUL: lines are
+printed, then silence). -/
 theorem C14_full_fails : ¬ C14_full := by
   intro h
-  have h1 := h.1 [.binaryData 4, .context 0 1 [97, 98, 97, 10], .matched 5 3 [98, 32, 120, 10]]
-  have : ¬ NoticeIfMatch [.binaryData 4, .context 0 1 [97, 98, 97, 10], .matched 5 3 [98, 32, 120, 10]] := by
-    unfold NoticeIfMatch
-    intro hh
-    have := hh ⟨.matched 5 3 [98, 32, 120, 10], by simp, rfl⟩
-    revert this
-    decide
-  exact this h1
-
-/-- Guards of the partial statement: no context line is ever delivered (no `-A/-B/-C/--passthru`);
-resp. whenever a line was delivered before the detection, a matching line was. -/
-def NoContext (evs : List Ev) : Bool := evs.all (fun e => !e.isContext)
-def MatchIfLine (pre : List Ev) : Bool :=
-  !(pre.any (fun e => e.isMatched || e.isContext)) || pre.any (fun e => e.isMatched)
-
-theorem feed_quit_matchCount (pre : List Ev) : ∀ st : St,
-    (feed .quit st pre).matchCount = st.matchCount + (pre.filter Ev.isMatched).length ∧
-    (feed .quit st pre).binOff = (match (pre.filter Ev.isBinaryData).getLast? with
-      | some (.binaryData o) => some o | _ => st.binOff) := by
-  induction pre with
-  | nil => intro st; simp [feed]
-  | cons ev pre ih =>
-    intro st
-    cases ev with
-    | matched o ln bs =>
-      simp only [feed, step]
-      obtain ⟨h1, h2⟩ := ih { st with matchCount := st.matchCount + 1, out := st.out ++ [.matchLine ln bs] }
-      have e1 : (Ev.matched o ln bs :: pre).filter Ev.isMatched = Ev.matched o ln bs :: pre.filter Ev.isMatched := by
-        simp [List.filter_cons, Ev.isMatched]
-      have e2 : (Ev.matched o ln bs :: pre).filter Ev.isBinaryData = pre.filter Ev.isBinaryData := by
-        simp [List.filter_cons, Ev.isBinaryData]
-      simp only [show (Det.quit == Det.convert) = false by decide, Bool.false_and, Bool.false_eq_true, if_false]
-      rw [e1, e2]
-      exact ⟨by rw [h1]; simp; omega, h2⟩
-    | context o ln bs =>
-      simp only [feed, step, show (Det.quit == Det.convert) = false by decide, Bool.false_and,
-        Bool.false_eq_true, if_false]
-      obtain ⟨h1, h2⟩ := ih { st with out := st.out ++ [.contextLine ln bs] }
-      have e1 : (Ev.context o ln bs :: pre).filter Ev.isMatched = pre.filter Ev.isMatched := by
-        simp [List.filter_cons, Ev.isMatched]
-      have e2 : (Ev.context o ln bs :: pre).filter Ev.isBinaryData = pre.filter Ev.isBinaryData := by
-        simp [List.filter_cons, Ev.isBinaryData]
-      rw [e1, e2]
-      exact ⟨h1, h2⟩
-    | ctxBreak =>
-      simp only [feed, step]
-      obtain ⟨h1, h2⟩ := ih { st with out := st.out ++ [.sep] }
-      have e1 : (Ev.ctxBreak :: pre).filter Ev.isMatched = pre.filter Ev.isMatched := by
-        simp [List.filter_cons, Ev.isMatched]
-      have e2 : (Ev.ctxBreak :: pre).filter Ev.isBinaryData = pre.filter Ev.isBinaryData := by
-        simp [List.filter_cons, Ev.isBinaryData]
-      rw [e1, e2]
-      exact ⟨h1, h2⟩
-    | binaryData o =>
-      simp only [feed, step]
-      obtain ⟨h1, h2⟩ := ih { st with binOff := some o }
-      have e1 : (Ev.binaryData o :: pre).filter Ev.isMatched = pre.filter Ev.isMatched := by
-        simp [List.filter_cons, Ev.isMatched]
-      refine ⟨by rw [e1]; exact h1, ?_⟩
-      rw [h2]
-      have e2 : (Ev.binaryData o :: pre).filter Ev.isBinaryData = Ev.binaryData o :: pre.filter Ev.isBinaryData := by
-        simp [List.filter_cons, Ev.isBinaryData]
-      rw [e2]
-      cases hq : pre.filter Ev.isBinaryData with
-      | nil => simp
-      | cons x xs => simp [List.getLast?_cons_cons]
+  have h1 := h.2 [.context 0 1 [108, 49, 10]] 8
+  revert h1
+  unfold WarnIfPrinted
+  decide
 
 /-- **Partial (`Quit`)**: if every stream in which a line was delivered before the detection also
 delivered a matching line (true without `--passthru`, unless the very first matching line holds
@@ -372,7 +263,7 @@ theorem C14_partial_quit (pre : List Ev) (off : Nat) (hg : MatchIfLine pre = tru
   unfold WarnIfPrinted
   rw [implicit_dropped_or_cut]
   intro ⟨it, hit, hline⟩
-  have hmc := (feed_quit_matchCount pre {}).1
+  have hmc := feed_quit_matchCount pre {}
   -- a line item comes from a matched or context event of `pre`
   have hsome : pre.any (fun e => e.isMatched || e.isContext) = true := by
     simp only [List.mem_append, List.mem_filterMap] at hit
@@ -402,6 +293,14 @@ theorem C14_partial_quit (pre : List Ev) (off : Nat) (hg : MatchIfLine pre = tru
     show 0 + _ ≠ 0
     omega
   simp [hne]
+
+/-- Non-vacuity of the guards: a `Convert` stream with a context line before the match still gets its notice; a
+stream with a match before the report satisfies `MatchIfLine`; both conclusions are non-trivial. -/
+example :
+    stdRun .convert [.binaryData 4, .context 0 1 [97, 10], .matched 5 3 [98, 32, 120, 10]] = [.binaryMatches 4] ∧
+    MatchIfLine [.matched 0 1 [120, 10]] = true ∧
+    stdRun .quit ([.matched 0 1 [120, 10]] ++ [.binaryData 9]) = [.matchLine 1 [120, 10], .stoppedWarning 9] := by
+  decide
 
 /-- `-c` / `-l` in `Quit` mode: the official match count of a file with binary data is squashed
 (the file counts as not matching); in `Convert` mode it is kept. -/
